@@ -4,8 +4,9 @@ from .units_sm import SM_LEGACY, SM_LESC, SM_COMB, KIND_CFGS, SMP_SIZE, HANDLED,
 # step harness: quick = the option sets where an authenticated method can be selected; thorough = all 12 configurations
 QUICK_STEP = {0: [1, 3], 1: [6], 2: [9, 11]}
 # histories from reset (they observe the temporary key of the legacy exchange): a legacy pairing needs 3 PDUs
-QUICK_HIST = {0: [0, 1, 2, 3], 1: [], 2: [11]}
-K = {'quick': {0: 4, 1: 2, 2: 3}, 'thorough': {0: 6, 1: 5, 2: 5}}
+# measured: combined manager, cfg 11, K=3: 837 s / 2.8 GB -> thorough only
+QUICK_HIST = {0: [0, 1, 2, 3], 1: [], 2: []}
+K = {'quick': {0: 4, 1: 2, 2: 3}, 'thorough': {0: 6, 1: 4, 2: 3}}
 
 
 def mk_cases(kind):
@@ -37,16 +38,16 @@ PROPERTY = Property(
              bounds='cfg 0..4 (quick: step 1, 3; histories 0..3); histories K=4 (quick) / 6 (thorough)', **COMMON),
      Harness('c35_status_lesc', SM_LESC, 'harness/c35_status.c', mk_cases(1),
              description='LESC manager: status after one step from every pairing state (synchronous / asynchronous / refused user confirmation)',
-             bounds='cfg 5..7 (quick: 6 = numeric output + yes/no); histories (thorough only) K=5', **COMMON),
+             bounds='cfg 5..7 (quick: 6 = numeric output + yes/no); histories (thorough only) K=4', **COMMON),
      Harness('c35_status_comb', SM_COMB, 'harness/c35_status.c', mk_cases(2),
              description='combined manager: same, legacy and LESC exchanges',
-             bounds='cfg 8..11 (quick: step 9, 11; history 11 with K=3); thorough histories K=5', **COMMON)],
+             bounds='cfg 8..11 (quick: step 9, 11); histories (thorough only) K=3', **COMMON)],
     functions=['details::legacy_security_connection_data::local_device_pairing_status', 'details::lesc_security_connection_data::local_device_pairing_status',
                'details::security_connection_data::local_device_pairing_status, ::legacy_pairing_completed, ::lesc_pairing_completed',
                'details::security_manager_base::legacy_create_temporary_key / legacy_temporary_key / legacy_handle_pairing_confirm / legacy_handle_pairing_random',
                'details::security_manager_base::lesc_handle_pairing_random / lesc_handle_pairing_dhkey_check / lesc_l2cap_output', 'pairing_yes_no::sm_pairing_request_yes_no, yes_no_response',
                'the pairing handlers of C32 (they decide when a pairing is completed)'],
-    bounds='12 manager configurations of shims/sm.cpp (3 managers x IO / OOB / bonding option sets; quick: those where an authenticated method can be selected); step: every pairing state with all members symbolic x one PDU (handled opcodes at exact length; any opcode at lengths 1 and MTU, thorough also 0, 7, 16, 17) / one poll / one user answer; histories from reset: 4 / 6 operations (legacy), 3 / 5 (combined), 5 (LESC, thorough only)',
+    bounds='12 manager configurations of shims/sm.cpp (3 managers x IO / OOB / bonding option sets; quick: those where an authenticated method can be selected); step: every pairing state with all members symbolic x one PDU (handled opcodes at exact length; any opcode at lengths 1 and MTU, thorough also 0, 7, 16, 17) / one poll / one user answer; histories from reset: 4 / 6 operations (legacy manager, quick / thorough), 3 (combined, thorough only), 4 (LESC, thorough only)',
     assumptions=['as C32: crypto tool box, RNG, keyboard, OOB callback, bond data base arbitrary (every call returns unconstrained symbolic values, logged); yes_no_response() only while the request is outstanding',
                  '"pairing completed" = the reference responder automaton of c32_sm_model.h reached "completed" (the peripheral sent Srand after the confirm check / its DHKey check Eb) and no Pairing Failed / new pairing since',
                  'legacy: "authenticated" = the TK of both c1() computations was a generated / typed passkey or the OOB data of the callback while the request carried the OOB flag; LESC: = the user answered yes to the numeric comparison of this pairing, or f6 was called with r != 0',
@@ -56,5 +57,6 @@ PROPERTY = Property(
     explanation='local_device_pairing_status() is compared after every operation with what the reference automaton and the ghost log say about the exchange the central actually drove: no_key unless the automaton is in "completed"; after a completion, authenticated iff the executed exchange authenticated the peer (observed temporary key source for legacy; user confirmation of the numeric comparison for LESC), unauthenticated otherwise. The step harness starts from every pairing state under the induction hypothesis that the currently reported status is right and shows it is right after any one operation; the histories from reset observe the temporary key end to end.',
     outside=['LESC passkey entry and LESC OOB: not implemented by bluetoe (the Just Works exchange is executed when they are selected), so "a completed LESC passkey-entry or OOB protocol" never occurs; the oracle would accept it (f6 with r != 0)',
              'whether Eb is sent without a verified Ea after an asynchronous user confirmation (C32, known finding there)', 'pairing_keyboard with a LESC capable manager (does not compile)',
-             'histories longer than the bounds that the step argument does not cover (TK observation of the legacy exchange)'],
+             'histories longer than the bounds that the step argument does not cover (TK observation of the legacy exchange)',
+             'quick tier: the temporary key of the combined manager\'s legacy exchange is observed only in the thorough tier (history of 3 operations: 837 s, 2.8 GB); quick covers it in the step harness through the algorithm member and observes the key for the legacy manager, which instantiates the same security_manager_base handlers'],
 )
